@@ -193,7 +193,7 @@ impl Engine for C10 {
         let cfg = MinCfg::from_params(&case.params);
         let in_path = write_input(&dir, "in", &case.records, &case.container);
         let out_path = dir.join("out.min");
-        let r = run_min(&in_path, &out_path, &cfg, &case.sched, &case.io, None, 4, max_steps(&case.tier));
+        let r = run_min(&in_path, &out_path, &cfg, &case.sched, &case.io, None, 4, steps_for(case));
         out.absorb(&r, true);
         match &r.value {
             Err(e) => {
